@@ -170,6 +170,21 @@ _add(
     )
 )
 
+# --- questions asked about a whole type (C16/C02): which variables occur in it, does it contain x, instantiate it.
+# TypeScheme::generalize keeps a `Dim` bound only for variables that `contains` finds; a traversal that forgets one
+# position of one variant (the return type of a function type) silently drops bounds of inferred signatures.
+_add(
+    Family(
+        "type_queries",
+        functions=["crate::typed_ast::Type::type_variables", "crate::typed_ast::Type::contains", "crate::typed_ast::Type::instantiate"],
+        enums=[TYPE],
+        payload=[TYPE, DTYPE],
+        structs=[],
+        visit=[r"typed_ast::(Type|DType)::(type_variables|contains|instantiate)$"],
+        min_arms=12,
+    )
+)
+
 # --- substitution reaches the types recorded in the type-checker environment (identifiers, functions, ans/_)
 _add(
     Family(
